@@ -29,7 +29,7 @@ RULE = ("cases = interleaved histories of construct/run operations of 2..4 DDLPa
         "for scripts of <= 3 statements, seeded samples for 3-4 threads; (3) free-running stress, 8-16 threads, "
         "sys.setswitchinterval(1e-6); (4, thorough) line-level sleep(0) injection in parser.py / ddl_parser.py through sys.monitoring. "
         "Non-trivial = a history with >= 2 live objects; distinct = distinct schedule (operation order / yield-point trace)."
-        " Added after seeded defects: twin specs (same text, different silent / normalize_names / debug / input.regex), a spec that alters a table only another spec defines, word echo (58 statement keywords first met as names in 22 name positions by other objects, then used as keywords); pairs in a fresh interpreter whose first object uses rarely used constructor options (log_level, log_file, debug); concurrent run(dump=True) into one not-yet-existing directory; a blocked operation is a verdict.")
+        " Added after seeded defects: twin specs (same text, different silent / normalize_names / debug / input.regex), a spec that alters a table only another spec defines, word echo (58 statement keywords first met as names in 22 name positions by other objects, then used as keywords); pairs in a fresh interpreter whose first object uses rarely used constructor options (log_level, log_file, debug); concurrent run(dump=True) into one not-yet-existing directory; a blocked operation is a verdict; LIKE / CLONE tables that an ALTER adds columns to; parse_from_file histories over files of different encodings.")
 ASSUMPTIONS = ["schedules are enumerated at statement granularity; finer interleavings are only sampled (free-running and line-level injection)",
                "CPython with the GIL (no claim about free-threaded builds)"]
 MIN_EVENTS = {"run_return": 200}
@@ -75,7 +75,12 @@ SPECS = [
     {"ddl": "CREATE TABLE xorders (id int, cust int);\nCREATE TABLE xcustomers (id int);\n", "ctor": {}},
     {"ddl": "CREATE TABLE xcustomers2 (id int);\nALTER TABLE xorders ADD CONSTRAINT fk_x FOREIGN KEY (cust) REFERENCES xcustomers (id);\nCREATE INDEX xo_idx ON xorders (cust);\n", "ctor": {}},
 ]
-TWINS = [(0, 12), (0, 13), (12, 13), (2, 14), (15, 16), (17, 18), (1, 19), (6, 20), (21, 22), (21, 1), (27, 28)]
+SPECS += [
+    # a table created without a column list (LIKE / CLONE) that an ALTER of the same script then adds columns to - next to another LIKE table
+    {"ddl": "CREATE TABLE lk1 LIKE s.src;\nALTER TABLE lk1 ADD loaded_at timestamp;\nALTER TABLE lk1 ADD CONSTRAINT fk_l FOREIGN KEY (loaded_at) REFERENCES p (k);\n", "ctor": {}},
+    {"ddl": "CREATE TABLE lk2 (LIKE src2);\nCREATE TABLE lk3 CLONE s3;\nCREATE TABLE lk4 LIKE s.src4;\n", "ctor": {}},
+]
+TWINS = [(0, 12), (0, 13), (12, 13), (2, 14), (15, 16), (17, 18), (1, 19), (6, 20), (21, 22), (21, 1), (27, 28), (29, 30), (29, 4)]
 
 
 def solo_references():
@@ -139,6 +144,60 @@ def first_in_process(ctx, refs, a_ctor, b_idx):
     if got != refs[b_idx]:
         ctx.violation("depends_on_first_object_of_the_process", {"gen": "first_in_process", "first_ctor": a_ctor, "spec": b_idx},
                       {"first_object_ctor": a_ctor, "observed": short(got, 300), "alone": short(refs[b_idx], 300)})
+
+
+FILES = {
+    "legacy.sql": "CREATE TABLE lg (a varchar(9) DEFAULT 'caf\xe9', b int);\n".encode("latin-1"),              # not valid UTF-8
+    "utf8.sql": "CREATE TABLE u8 (a varchar(20) DEFAULT 'cr\u00e8me', b int COMMENT 'na\u00efve \u2013 cl\u00e9');\n".encode("utf-8"),
+    "ascii.sql": b"CREATE TABLE asc1 (a int, b varchar(3) NOT NULL);\nCREATE SEQUENCE sq START 5;\n",
+    "utf8_bom.sql": "\ufeffCREATE TABLE bm (a int);\n".encode("utf-8"),
+}
+
+
+def file_histories(ctx):
+    """parse_from_file called for several files in one process (each call builds its own parser): what a call returns - or raises - may not
+    depend on which files were read before; the reference is each file read as the only one in a fresh interpreter"""
+    import shutil
+    import tempfile
+    d = tempfile.mkdtemp(prefix="vf_c15p_")
+    try:
+        for n, b in FILES.items():
+            with open(os.path.join(d, n), "wb") as f:
+                f.write(b)
+        code = ("import json, sys\nfrom simple_ddl_parser import parse_from_file\np, kw = json.loads(sys.stdin.read())\n"
+                "try:\n    out = ['ok', parse_from_file(p, **kw)]\nexcept Exception as e:\n    out = ['exc', type(e).__name__]\nprint('VFRESULT' + json.dumps(out))\n")
+        variants = [{}, {"parser_settings": {"normalize_names": True}, "group_by_type": True}]
+        refs = {}
+        for n in FILES:
+            for vi, kw in enumerate(variants):
+                r = subprocess.run([sys.executable, "-B", "-c", code], input=json.dumps([os.path.join(d, n), kw]), capture_output=True, text=True, timeout=120, env=dict(os.environ), cwd=d)
+                lines = [l for l in r.stdout.splitlines() if l.startswith("VFRESULT")]
+                if not lines:
+                    ctx.inconclusive_because("file reference produced no result: " + (r.stderr or "")[-200:])
+                    return
+                refs[(n, vi)] = json.loads(lines[-1][len("VFRESULT"):])
+        from simple_ddl_parser import parse_from_file
+        rng = ctx.sub_rng("files")
+        for rep in range(6):
+            order = list(FILES) * 2
+            rng.shuffle(order)
+            if rep == 0:
+                order = ["legacy.sql", "utf8.sql", "ascii.sql", "utf8.sql", "utf8_bom.sql", "legacy.sql", "utf8.sql"]
+            for n in order:
+                vi = rng.randrange(len(variants))
+                try:
+                    got = ["ok", json.loads(json.dumps(parse_from_file(os.path.join(d, n), **variants[vi])))]
+                except Exception as e:
+                    got = ["exc", type(e).__name__]
+                ctx.evaluated()
+                ctx.obs["file_history_steps"] += 1
+                ctx.nontrivial_case(digest("files|%d|%s|%d" % (rep, n, vi)))
+                if got != refs[(n, vi)]:
+                    ctx.violation("file_result_depends_on_files_read_before", {"gen": "file_histories"}, {"file": n, "arguments": variants[vi], "order": order,
+                                                                                                        "observed": short(got, 300), "alone": short(refs[(n, vi)], 300)})
+                    return
+    finally:
+        shutil.rmtree(d, ignore_errors=True)
 
 
 def word_echo(ctx, word, use, mode, how):
@@ -332,7 +391,14 @@ def dump_stress(ctx, nthreads, rounds):
     alone = []
     for t, sp in enumerate(specs):
         d0 = os.path.join(root, "alone%d" % t)
-        alone.append(json.loads(json.dumps(construct(sp).run(dump=True, dump_path=d0, file_path="f%d.sql" % t))))
+        try:
+            alone.append(json.loads(json.dumps(construct(sp).run(dump=True, dump_path=d0, file_path="f%d.sql" % t))))
+        except Exception as e:
+            # a plain two-statement script fails although nothing runs beside it: only objects that ran EARLIER in this process can be the cause
+            ctx.violation("sequential_interference", {"gen": "dump_stress", "threads": nthreads, "rounds": rounds},
+                          {"object": "a fresh parser on %r after the other objects of this process" % sp["ddl"][:60], "observed": ["exc", type(e).__name__, str(e)[:120]]})
+            shutil.rmtree(root, ignore_errors=True)
+            return
     errs = []
     old = sys.getswitchinterval()
     sys.setswitchinterval(1e-6)
@@ -414,6 +480,8 @@ def with_line_injection(ctx, refs, seed):
 
 
 def check_case(ctx, case):
+    if case.get("gen") == "file_histories":
+        return file_histories(ctx)
     if case.get("gen") == "dump_stress":
         return dump_stress(ctx, case["threads"], case["rounds"] * 3)
     if case.get("gen") == "first_in_process":
@@ -530,6 +598,8 @@ def run_shard(ctx):
             jj += 1
             if ctx.mine(jj):
                 first_in_process(ctx, refs, a_ctor, b_idx)
+    if ctx.shard == 0 or ctx.tier == "thorough":
+        file_histories(ctx)
     for bl in BLOCKED:
         ctx.violation("operation_blocked_by_another_object", {"gen": "single_object_in_a_thread", "spec": bl["spec"]}, bl)
     del BLOCKED[:]
